@@ -230,7 +230,7 @@ def post_plan(job, res, sb, m):
     if not segs:
         out["head_kind"] = K.classify_end(res["end"], text)
     # exported files
-    exp = {"csv": {}, "sqlite": {}, "text": {}, "xlsx": {}, "errors": []}
+    exp = {"csv": {}, "sqlite": {}, "sqlite_classes": {}, "text": {}, "xlsx": {}, "errors": []}
     outroot = os.path.join(sb, "out")
     for root, _d, files in os.walk(sb):
         if root.startswith(os.path.join(sb, "ev")) or root.startswith(os.path.join(sb, "tmp")):
@@ -243,6 +243,7 @@ def post_plan(job, res, sb, m):
                     exp["csv"][rel] = K.parse_csv(p)[1]
                 elif f.endswith("-sqlite-dissect.db3"):
                     exp["sqlite"][rel] = K.parse_sqlite_export(p)
+                    exp["sqlite_classes"][rel] = K.parse_sqlite_classes(p)
                 elif f.endswith(".txt") and root != os.path.join(sb, "ev"):
                     exp["text"][rel] = K.parse_text_headers(open(p, encoding="utf-8", errors="replace").read())
                 elif f.endswith(".xlsx"):
